@@ -35,7 +35,10 @@ def build(recs):
     out = []
     for j, (i, cons, ph, po, tp) in enumerate(recs):
         votes = {c: {"A": j + 1, f"x{j}": True} for c in cons}
-        out.append(CVR(id=i, votes=votes, phantom=ph, pool=po, tally_pool=tp))
+        if cons:
+            out.append(CVR(id=i, votes=votes, phantom=ph, pool=po, tally_pool=tp))
+        else:  # a record without contests, built the way callers do: the constructor's default (shared) votes dict
+            out.append(CVR(id=i, phantom=ph, pool=po, tally_pool=tp))
     return out
 
 
@@ -95,27 +98,38 @@ def judge(recs):
     return ded
 
 
+NAMING = {
+    # contest ids, candidate ids and ballot ids drawn from disjoint name spaces ...
+    "disjoint": {"con1": "339", "con2": "3", "c1": ["15", "16", "17"], "c2": ["1", "2"], "b": ["b_1", "b_2", "b_3"]},
+    # ... and the common case of files that number contests, candidates and ballots from 1
+    "from-1": {"con1": "1", "con2": "2", "c1": ["1", "2", "3"], "c2": ["1", "2"], "b": ["1", "2", "3"]},
+}
+
+
 def raire_cases():
-    cands = ["15", "16", "17"]
-    rankings = [p for r in range(0, 4) for p in itertools.permutations(cands, r)]
-    for ncon in (1, 2):
-        for r1 in rankings:
-            for r2 in rankings[::5]:
-                yield {"ncon": ncon, "r1": list(r1), "r2": list(r2)}
+    for naming in NAMING:
+        cands = NAMING[naming]["c1"]
+        rankings = [p for r in range(0, 4) for p in itertools.permutations(cands, r)]
+        for ncon in (1, 2):
+            for r1 in rankings:
+                for r2 in rankings[::5]:
+                    yield {"ncon": ncon, "r1": list(r1), "r2": list(r2), "naming": naming}
 
 
 def judge_raire(case):
     ncon, r1, r2 = case["ncon"], case["r1"], case["r2"]
-    rows = [[str(ncon)], ["Contest", "339", "3", "15", "16", "17"]]
+    nm = NAMING[case.get("naming", "disjoint")]
+    k1, k2, b = nm["con1"], nm["con2"], nm["b"]
+    rows = [[str(ncon)], ["Contest", k1, "3"] + nm["c1"]]
     if ncon == 2:
-        rows.append(["Contest", "3", "2", "1", "2"])
-    rows += [["339", "b_1"] + r1, ["339", "b_2"] + r2]
-    want = {"b_1": {"339": {c: k + 1 for k, c in enumerate(r1)}}, "b_2": {"339": {c: k + 1 for k, c in enumerate(r2)}}}
+        rows.append(["Contest", k2, "2"] + nm["c2"])
+    rows += [[k1, b[0]] + r1, [k1, b[1]] + r2]
+    want = {b[0]: {k1: {c: k + 1 for k, c in enumerate(r1)}}, b[1]: {k1: {c: k + 1 for k, c in enumerate(r2)}}}
     if ncon == 2:
-        rows.append(["3", "b_1", "2", "1"])
-        rows.append(["3", "b_3", "1"])
-        want["b_1"]["3"] = {"2": 1, "1": 2}
-        want["b_3"] = {"3": {"1": 1}}
+        rows.append([k2, b[0], nm["c2"][1], nm["c2"][0]])
+        rows.append([k2, b[2], nm["c2"][0]])
+        want[b[0]][k2] = {nm["c2"][1]: 1, nm["c2"][0]: 2}
+        want[b[2]] = {k2: {nm["c2"][0]: 1}}
     try:
         got, n = CVR.from_raire(rows)
     except Exception as e:  # noqa
